@@ -17,13 +17,24 @@ Definition idhash (x : N) : N := x.       (* util::IdentityHash *)
 Record dstate : Type := mkD { d_tab : dtable; d_seen_zero : bool }.
 Definition dedupe_init : dstate := mkD (auto_init unit tt) false.
 
-(* bool Dedupe::operator()(uint64_t key) *)
-Definition dedupe_pass (s : dstate) (k : N) : res (bool * dstate) :=
-  if dedupe_has_reserved_guard && (k =? dedupe_reserved_key) then
-    Ok (negb (d_seen_zero s), mkD (d_tab s) true)          (* bool first = !seen_zero_; seen_zero_ = true; return first; *)
+(* insert-if-absent on the seen-set with an optional guard for the key the table reserves:
+   `if (key == rk) { bool first = !seen_zero_; seen_zero_ = true; return first; }` then
+   `return !table_.FindOrInsert(entry, it)`.  Returns "is new". *)
+Definition seen_pass (guard : bool) (rk : N) (s : dstate) (k : N) : res (bool * dstate) :=
+  if guard && (k =? rk) then
+    Ok (negb (d_seen_zero s), mkD (d_tab s) true)
   else
     bind (auto_find_or_insert unit tt idhash (d_tab s) (k, tt)) (fun r =>
-      match r with (found, _, t') => Ok (negb found, mkD t' (d_seen_zero s)) end).   (* return !table_.FindOrInsert(entry, it) *)
+      match r with (found, _, t') => Ok (negb found, mkD t' (d_seen_zero s)) end).
+
+(* membership test only (`table.Find(key, it)`), with the same optional guard.  Returns "is present". *)
+Definition seen_find (guard : bool) (rk : N) (s : dstate) (k : N) : res bool :=
+  if guard && (k =? rk) then Ok (d_seen_zero s)
+  else bind (auto_find unit idhash (d_tab s) k) (fun r => Ok (match r with Some _ => true | None => false end)).
+
+(* bool Dedupe::operator()(uint64_t key) *)
+Definition dedupe_pass : dstate -> N -> res (bool * dstate) :=
+  seen_pass dedupe_has_reserved_guard dedupe_reserved_key.
 
 Section Lines.
   Variable A : Type.                 (* a line *)
